@@ -6,7 +6,7 @@ Local Open Scope N_scope.
 (* each qualifying mapping is listed, with base / size = its (merged) extent and the identifier found *)
 Theorem qualifying_listed ms tbl users m nm e id :
   In m ms -> m_name m = Some nm -> interesting m = true -> contained m (map (fun u => (um_start u, um_size u)) users) = false ->
-  lookup tbl nm = Some e -> ei_id e = Some id -> usable_id id = true ->
+  lookup tbl nm (m_off m) = Some e -> ei_id e = Some id -> usable_id id = true ->
   In (module_of m id (ei_soname e)) (module_list ms tbl users).
 Proof.
   intros Hin Hn Hi Hc Hl He Hu. unfold module_list. apply in_or_app. left. unfold target_modules.
@@ -17,11 +17,11 @@ Qed.
 Theorem listed_qualifies ms tbl users md :
   In md (target_modules ms tbl users) ->
   exists m nm e id, In m ms /\ m_name m = Some nm /\ interesting m = true /\ contained m users = false /\
-                    lookup tbl nm = Some e /\ ei_id e = Some id /\ usable_id id = true /\ md = module_of m id (ei_soname e).
+                    lookup tbl nm (m_off m) = Some e /\ ei_id e = Some id /\ usable_id id = true /\ md = module_of m id (ei_soname e).
 Proof.
   unfold target_modules. intro H. apply in_flat_map in H. destruct H as (m & Hin & H).
   destruct (interesting m) eqn:Hi; [|destruct H]. destruct (contained m users) eqn:Hc; [destruct H|]. cbn [negb andb] in H.
-  destruct (m_name m) as [nm|] eqn:Hn; [|destruct H]. destruct (lookup tbl nm) as [e|] eqn:Hl; [|destruct H].
+  destruct (m_name m) as [nm|] eqn:Hn; [|destruct H]. destruct (lookup tbl nm (m_off m)) as [e|] eqn:Hl; [|destruct H].
   destruct (ei_id e) as [id|] eqn:He; [|destruct H]. destruct (usable_id id) eqn:Hu; [|destruct H].
   destruct H as [<-|[]]. exists m, nm, e, id. repeat split; auto.
 Qed.
